@@ -7,6 +7,7 @@
 // Author: Shuo Chen (chenshuo at chenshuo dot com)
 
 #include "muduo/net/EventLoopThread.h"
+#include "muduo/base/VerifHooks.h"
 
 #include "muduo/net/EventLoop.h"
 
@@ -27,10 +28,12 @@ EventLoopThread::EventLoopThread(const ThreadInitCallback& cb,
 EventLoopThread::~EventLoopThread()
 {
   exiting_ = true;
+  MUDUO_VERIF_POINT("EventLoopThread::dtor:entry", this);
   if (loop_ != NULL) // not 100% race-free, eg. threadFunc could be running callback_.
   {
     // still a tiny chance to call destructed object, if threadFunc exits just now.
     // but when EventLoopThread destructs, usually programming is exiting anyway.
+    MUDUO_VERIF_POINT("EventLoopThread::dtor:beforeQuit", this);
     loop_->quit();
     thread_.join();
   }
@@ -69,7 +72,9 @@ void EventLoopThread::threadFunc()
     cond_.notify();
   }
 
+  MUDUO_VERIF_POINT("EventLoopThread::threadFunc:published", this);
   loop.loop();
+  MUDUO_VERIF_POINT("EventLoopThread::threadFunc:loopReturned", this);
   //assert(exiting_);
   MutexLockGuard lock(mutex_);
   loop_ = NULL;
